@@ -172,6 +172,16 @@ COMMAND_SCRIPTS = {
     "set-logic": "(set-logic QF_LIA)" + _D + "(assert (< x 3))",
     "set-option": "(set-option :produce-models true)",
     "set-info": "(set-info :status sat)",
+    # attribute values of other lexical classes: string literal, quoted symbol (several words, text that begins and ends
+    # with a double quote but is not one string literal), numeral, decimal
+    "set-info#string": "(set-info :source \"a string\")" + _D + "(assert a)",
+    "set-info#string-doubled-quote": "(set-info :source \"say \"\"hi\"\" twice\")" + _D + "(assert a)",
+    "set-info#quoted-symbol": "(set-info :source |several words; and (parens)|)" + _D + "(assert a)",
+    "set-info#quoted-symbol-with-strings": "(set-info :source |\"bounded\" and \"unbounded\"|)" + _D + "(assert a)",
+    "set-info#quoted-symbol-with-strings-2": "(set-info :notes |\"sat\" expected, was \"unknown\"|)(set-info :status sat)" + _D + "(assert a)",
+    "set-info#decimal": "(set-info :smt-lib-version 2.6)" + _D + "(assert a)",
+    "set-option#string": "(set-option :diagnostic-output-channel \"stderr\")" + _D + "(assert a)",
+    "set-option#numeral": "(set-option :random-seed 42)" + _D + "(assert a)",
     "assert-soft": _D + "(assert-soft a :weight 2 :id g)",
     "check-allsat": _D + "(assert a)(check-allsat (a))",
     "get-objectives": _D + "(minimize x)(check-sat)(get-objectives)",
